@@ -10,7 +10,7 @@
 (*                                                                         *)
 (* Verdict(rec) judges one OBSERVATION RECORD of one executed command:     *)
 (*   rec.kind    special | builtin | function | group | subshell | pipe |  *)
-(*               notfound | empty | exec                                   *)
+(*               notfound | external | empty | exec                        *)
 (*   rec.nc      noclobber option on                                       *)
 (*   rec.lim     RLIMIT_NOFILE in force (AbsNoLimit = not lowered)         *)
 (*   rec.bst     exit status the command body itself ends with             *)
@@ -210,6 +210,7 @@ ExecAfterClause(rec, S) ==
 ExpectedStatus(rec) ==
   CASE rec.kind \in RunKinds -> rec.bst
     [] rec.kind = "notfound" -> 127
+    [] rec.kind = "external" -> 126        \* found but cannot be executed (XCU 2.8.2)
     [] rec.kind = "empty"    -> 0
     [] rec.kind = "exec"     -> 0
 
@@ -218,7 +219,7 @@ Clauses(rec, S) ==
       runs   == rec.kind \in RunKinds /\ ~failed
       M      == IF runs /\ rec.ran THEN AbsMarks(S, rec.wr)
                 ELSE [O |-> S.O, F |-> S.F, good |-> TRUE, taint |-> {}]
-      taint  == M.taint \cup (IF failed \/ rec.kind = "notfound" THEN ErrPath(S) ELSE {})
+      taint  == M.taint \cup (IF failed \/ rec.kind \in {"notfound", "external"} THEN ErrPath(S) ELSE {})
       F1     == FilesFn(rec.files1)
       filesOK == \A p \in DOMAIN M.F :
                     \/ p \in taint
